@@ -568,17 +568,10 @@ MUTANTS = [
     m('C11-dispatch-after-stop', 'C11', ['R1'], E + 'dispatcher.py',
       "        if states.is_completed(wf_ex.state):\n            break\n\n", ""),
     m('C11-refresh-after-stop', 'C11', ['R1'], E + 'task_handler.py',
-      "        wf_ex = task_ex.workflow_execution\n\n"
-      "        if states.is_completed(wf_ex.state):\n            return\n\n"
-      "        wf_spec = spec_parser.get_workflow_spec_by_execution_id(\n"
-      "            task_ex.workflow_execution_id\n        )\n\n"
-      "        wf_ctrl = wf_base.get_controller(wf_ex, wf_spec)\n\n"
-      "        with db_api.named_lock(task_ex.id):",
-      "        wf_ex = task_ex.workflow_execution\n\n"
-      "        wf_spec = spec_parser.get_workflow_spec_by_execution_id(\n"
-      "            task_ex.workflow_execution_id\n        )\n\n"
-      "        wf_ctrl = wf_base.get_controller(wf_ex, wf_spec)\n\n"
-      "        with db_api.named_lock(task_ex.id):"),
+      "        if states.is_paused_or_completed(wf_ex.state):\n"
+      "            return\n\n        wf_spec = spec_parser.",
+      "        if states.is_paused(wf_ex.state):\n"
+      "            return\n\n        wf_spec = spec_parser."),
     m('C11-cancel-not-recursive', 'C11', ['R2'], E + 'workflow_handler.py',
       "    # Cancels subworkflows.\n    if state == states.CANCELLED:",
       "    # Cancels subworkflows.\n    if state == states.ERROR:"),
